@@ -835,7 +835,7 @@ def copy_midrun_c06(sc, base, seed):
     return copy_midrun(sc, base, seed, pid="C06")
 
 
-def c19_periodic(sc, base, seed):
+def c19_periodic(sc, base, seed, rebuild=False):
     """a horizon longer than the period of the simulation's own housekeeping (every 182 temporal units): an arbitrary loss still
     recovering when that date passes, against the same event 60 steps later (which passes it before it occurs)"""
     out = []
@@ -847,8 +847,28 @@ def c19_periodic(sc, base, seed):
     occ = 150 * dt
     ev = {"type": "arbitrary", "occ": occ, "dur": 10 * dt, "name": None,
           "impact": {f"{rng.choice(regs)}|{rng.choice(secs)}": rng.choice([0.2, 0.4])}, "recovery_tau": 60 * dt, "curve": "linear"}
+    if rebuild or seed % 8 == 4:
+        # a reconstruction under way when that date passes (its rebuilding sector serves all demand thanks to overproduction)
+        tb_, cfg_ = sc["table"], sc["model"]
+        try:
+            K_ = np.asarray(scen.build_model(tb_, cfg_).productive_capital, dtype=float).ravel()
+        except Exception:
+            return out
+        r_, s_ = rng.choice(regs), rng.choice(secs)
+        i_ = regs.index(r_) * len(secs) + secs.index(s_)
+        if K_[i_] <= 0:
+            return out
+        ev = {"type": "rebuild", "occ": occ, "dur": 2 * dt, "name": None, "emf": cfg_["monetary_factor"],
+              "impact": {f"{r_}|{s_}": float(K_[i_] * 0.1)}, "house": None, "rebuild_tau": 60 * dt,
+              "reb_sectors": {rng.choice(secs): 1.0}, "factor": 1.0}
     a = copy.deepcopy(sc)
     a["events"] = [ev]
+    if ev["type"] == "rebuild":
+        from harness import known as _known
+        scen.avoid_f13(a, rng)
+        if not a["events"] or _known.match_scenario("C19", a):
+            return out
+        ev = a["events"][0]
     a["T"] = 260 * dt
     a["sim"]["save_records"] = []
     a["sim"]["show_progress"] = False
@@ -901,3 +921,59 @@ def pure_manual_c09(sc, base, seed):
 
 def pure_manual_c16(sc, base, seed):
     return pure_manual(sc, base, seed, pid="C16")
+
+
+def fd_rescale(sc, base, seed, pid="C04"):
+    """final demand lowered in the middle of a run through the model's public property, once in place (`model.final_demand *= f`)
+    and once by assigning a new array: the same run either way, and nobody is delivered more than asked"""
+    out = []
+    if "error" in base or seed % 3 != 0:
+        return out
+    rng = random.Random(seed + 71)
+    dt = int(sc["model"].get("dt", 1))
+    nsteps = len(range(0, sc["T"], dt))
+    if nsteps < 4:
+        return out
+    j = rng.randint(1, nsteps - 2)
+    f = rng.choice([0.6, 0.8])
+    runs = []
+    for how in ("inplace", "assign"):
+        tw = copy.deepcopy(sc)
+        tw["sim"]["save_records"] = []
+        tw["sim"]["show_progress"] = False
+        try:
+            sim = scen.build_sim(tw)
+            crashed = False
+            for k in range(nsteps):
+                if k == j:
+                    if how == "inplace":
+                        sim.model.final_demand *= f
+                    else:
+                        sim.model.final_demand = np.array(sim.model.final_demand, dtype=float) * f
+                if sim.next_step() == 1:
+                    crashed = True
+                    break
+            b = {r: getattr(sim, r).to_numpy(dtype=float).copy() for r in RECORDS}
+            b["n"] = int(sim.current_temporal_unit)
+            b["crashed"] = bool(crashed)
+            b["columns"] = list(sim.production_realised.columns)
+        except Exception as e:
+            b = {"error": f"{type(e).__name__}: {e}"}
+        runs.append(b)
+    out += cmp_records(pid, runs[1], runs[0], f"final demand scaled by {f} before step {j} in place (`*=` on the property) against assigning a new array")
+    if "error" not in runs[0]:
+        un = runs[0]["final_demand_unmet"]
+        n_ = min(runs[0]["n"], un.shape[0])
+        fin = un[:n_][np.isfinite(un[:n_]).all(axis=1)]
+        scale = float(np.nanmax(np.abs(runs[0]["final_demand"][:n_]))) if n_ else 1.0
+        if fin.size and (fin < -1e-9 * max(scale, 1e-300)).any():
+            out.append(viol(pid, j * dt, f"unmet final demand is negative after final demand was scaled by {f} in place (clients received more than they asked)",
+                            worst=float(fin.min())))
+    return out
+
+
+def c19_periodic_c14(sc, base, seed):
+    out = c19_periodic(sc, base, seed, rebuild=True)
+    for v in out:
+        v["property"] = "C14"
+    return out
